@@ -52,6 +52,7 @@ pub struct KDebug;
 pub struct KDisplay;
 pub struct KAsRef;
 pub struct KCloneOnly;
+pub struct KIntResMixed;
 pub struct KGrpA;
 pub struct KGrpR;
 pub struct KGrpB;
@@ -137,6 +138,7 @@ pub trait Everything:
     + Shapes
     + IntRes
     + IntResAlias
+    + IntResMixed
     + Consume
     + Gen<usize>
     + Gen<u64>
@@ -160,6 +162,7 @@ impl<T> Everything for T where
         + Shapes
         + IntRes
         + IntResAlias
+        + IntResMixed
         + Consume
         + Gen<usize>
         + Gen<u64>
@@ -210,6 +213,7 @@ single!(KBasic, Basic, BASIC, call_basic, m, []);
 single!(KReadOnly, ReadOnly, READONLY, call_readonly, r, []);
 single!(KShapes, Shapes, SHAPES, call_shapes, m, []);
 single!(KIntRes, IntRes, INTRES, call_intres, m, []);
+single!(KIntResMixed, IntResMixed, INTRESMIXED, call_intresmixed, r, []);
 single!(KDebug, core::fmt::Debug, FMTDEBUG, call_debug, r, []);
 single!(KDisplay, core::fmt::Display, FMTDISPLAY, call_display, r, []);
 single!(KAsRef, AsRef<u64>, ASREF, call_asref, r, []);
